@@ -483,6 +483,18 @@ func (w *scWorld) step(i int, op string) string {
 		}
 		return t
 	}
+	// the key token "-" stands for the empty key
+	if len(f) > 2 {
+		switch f[0] {
+		case "tset", "trem", "tget", "bset", "bget", "qget":
+			if f[2] == "-" {
+				f[2] = ""
+			}
+		}
+	}
+	if len(f) > 1 && (f[0] == "sget" || f[0] == "srem") && f[1] == "-" {
+		f[1] = ""
+	}
 	switch f[0] {
 	case "mode":
 		need(2)
